@@ -1,18 +1,24 @@
 import CV.Model.QuantFloatReplica
 import CV.Proofs.QuantExamples
 import CV.Proofs.QuantCatLink
+import CV.Proofs.QuantFloatInstances
 /-!
 # C03 (component `quant`): every float-derived entropy model is valid and exactly invertible
 
-Float-dependent layer.  IEEE arithmetic is not modelled in the kernel; it enters through the
-integer sequences it produces, with the trusted-base assumptions stated as explicit,
+Float-dependent layer.  The general theorems do not reason about IEEE arithmetic: it enters
+through the integer sequences it produces, with the trusted-base assumptions stated as explicit,
 decidable **hypotheses** (`TBF1Fast`, `TBF2`, `GOk` — see `CV.Proofs.QuantModels`; never axioms),
-which the driver evaluates on every sampled instance.  From them, for all `1 ≤ P ≤ B ≤ 64`
+which the driver evaluates on every sampled instance, and which are *proved* by `decide` (the
+Lean 4.33 kernel reduces closed `Float`/`Float32` terms) on realistic instances in
+`CV.Proofs.QuantFloatInstances` — the `example`s below use those next to synthetic ones.  From them, for all `1 ≤ P ≤ B ≤ 64`
 (`P = B` included) and every integer symbol type (signed/unsigned, narrower/wider than
 `Probability`):
 
 * `C03_fast_cdf_valid`   — `fast_quantized_cdf` + `from_fixed_point_cdf` yield a `ValidCdf`
   (component `cat`'s representation invariant), hence a `WellFormed` contiguous model;
+  `C03_ncdec_fast`, `C03_ncenc_fast`, `C03_lookup_fast`, `C03_nclookup_fast` — the other four
+  `…_fast` constructors (glue over the same `fast_quantized_cdf`) yield the canonical models of
+  the same table: no `Fault`, decoder/encoder of the labelled specification model;
 * `C03_lazy_wellFormed`  — the lazy model is `WellFormed`;
 * `C03_leaky_wellFormed` — the leakily quantised model is `WellFormed` **for every hint
   function**; `C03_leaky_search_every_hint` is the underlying statement about the search
@@ -20,8 +26,11 @@ which the driver evaluates on every sampled instance.  From them, for all `1 ≤
 
 Label: **partial** only in the step from the documented float preconditions to the three
 hypotheses (TB-F1/TB-F2, certificate-checked per instance); the integer layer and the search
-algorithm are full.  `perfectly_quantized_probabilities`: only its output contract is modelled
-(`C03_perfect_contract`; the result is passed through `cat`'s validator); termination not claimed.
+algorithm are full.  `perfectly_quantized_probabilities`: only its output contract is modelled;
+validity of every `…_perfect` result comes from component `cat`'s validator theorem
+(`C19_validator_accepts_only_valid` in `C19_cat`: the weights are passed through
+`from_nonzero_fixed_point_probabilities`), **not** from `C03_perfect_contract` below, which merely
+unfolds the contract the driver checks; termination is not claimed.
 -/
 namespace CV.Quant
 open CV
@@ -58,25 +67,37 @@ example : ∃ cdf, fastCdf 16 12 4 (freeWeight 16 12 4) exH = .ok cdf ∧ Cat.Va
     (contiguousModel 16 cdf).WellFormed 12 :=
   C03_fast_cdf_valid (by decide) (by decide) (by decide) (by decide) exTBF1
 
-/-- **C03, `LazyContiguousCategoricalEntropyModel`** -/
+/-- the same on a real `f32` table: the D4 reproducer at `u32` / `P = 24`, hypotheses by `decide` -/
+example : ∃ cdf, fastCdf 32 24 5 (freeWeight 32 24 5) (d4.hE f32Ops 32) = .ok cdf ∧
+    Cat.ValidCdf 32 24 cdf ∧ (contiguousModel 32 cdf).WellFormed 24 :=
+  C03_fast_cdf_valid (by decide) (by decide) (by decide) (by decide) (d4_n ▸ d4_tbf1)
+
+/-- **C03, `LazyContiguousCategoricalEntropyModel`**; the out-of-support clause is stated on the
+    model function itself (`.ok none`: a `Fault` does not count as "impossible symbol") -/
 theorem C03_lazy_wellFormed {B P n : Nat} {h : Nat → Nat} {k0 : Nat → Nat} (hP1 : 1 ≤ P)
     (hPB : P ≤ B) (hB : B ≤ 64) (hlen : lenOk P n = true) (tb : TBF1Fast h n)
     (t2 : TBF2 P n (freeWeight B P n) h k0) :
     (lazyModel B P n (freeWeight B P n) h k0).WellFormed P ∧
-    (∀ s, n ≤ s → (lazyModel B P n (freeWeight B P n) h k0).enc s = none) ∧
-    (∀ s, s < n → ∃ c p, (lazyModel B P n (freeWeight B P n) h k0).enc s = some (c, p) ∧
+    (∀ s, n ≤ s → lazyEnc B P n (freeWeight B P n) h s = .ok none) ∧
+    (∀ s, s < n → ∃ c p, lazyEnc B P n (freeWeight B P n) h s = .ok (some (c, p)) ∧
       0 < p ∧ p < 2 ^ P) := by
   have ok := FastOk.of_lenOk hP1 hPB hB hlen
   have hf := freeWeight_eq ok
-  refine ⟨lazyModel_wellFormed ok hB hf tb t2, fun s hs => lazyModel_enc_none ok hf tb hs, ?_⟩
+  refine ⟨lazyModel_wellFormed ok hB hf tb t2, fun s hs => ?_, ?_⟩
+  · rw [lazyEnc_eq ok hf tb.mono]; unfold encF; rw [if_neg (by omega)]
   intro s hs
   refine ⟨cumF P n (freeWeight B P n) h s, widthF P n (freeWeight B P n) h s, ?_,
     width_pos ok hf tb.mono hs, width_lt ok hf tb.mono hs⟩
-  rw [lazyModel_enc ok hf tb]; unfold encF; rw [if_pos hs]
+  rw [lazyEnc_eq ok hf tb.mono]; unfold encF; rw [if_pos hs]
 
 example : (lazyModel 16 12 4 (freeWeight 16 12 4) exH (fun _ => 1)).WellFormed 12 :=
   (C03_lazy_wellFormed (by decide) (by decide) (by decide) (by decide) exTBF1
     (by rw [exFree]; exact exTBF2)).1
+
+/-- the same on a real `f32` model at `u8` / `P = 6` whose skip phase skips (`lz_skips`);
+    TB-F1 and TB-F2 for *all* 64 quantiles by `decide` -/
+example : (lazyModel 8 6 6 (freeWeight 8 6 6) (lz.hE f32Ops 8) (lz.k0 f32Ops 8)).WellFormed 6 :=
+  (C03_lazy_wellFormed (by decide) (by decide) (by decide) (by decide) lz_tbf1 lz_tbf2).1
 
 /-- **C03, `LeakilyQuantizedDistribution`: tiling, non-empty bins, none of probability one** -/
 theorem C03_leaky_tiling {m : LQ} {g : Int → Nat} (ok : m.Ok) (gk : GOk m g) :
@@ -113,17 +134,85 @@ theorem C03_leaky_wellFormed {m : LQ} {g : Int → Nat} (ok : m.Ok) (gk : GOk m 
     (hint : Nat → Int) :
     (leakyModel m g hint).WellFormed m.P ∧
     (∀ hint' q, q < 2 ^ m.P → (leakyModel m g hint).dec q = (leakyModel m g hint').dec q) ∧
-    (∀ s, s < m.min ∨ m.max < s → (leakyModel m g hint).enc s = none) :=
+    (∀ s, s < m.min ∨ m.max < s → m.enc (extL g) (extR g) s = .ok none) :=
   ⟨leakyModel_wellFormed ok gk, fun hint' _ hq => leakyModel_dec_hint_irrelevant ok gk hint hint' hq,
-    fun _ hs => leakyModel_enc_none ok gk hs⟩
+    fun s hs => by rw [enc_eq ok gk]; unfold encQ; rw [if_neg (by omega)]⟩
 
 example : (leakyModel exLQ exG (fun _ => -100)).WellFormed 12 :=
   (C03_leaky_wellFormed exLQ_ok exG_ok _).1
 example : (leakyModel exLQfull (fun _ => 0) (fun q => q)).WellFormed 8 :=
   (C03_leaky_wellFormed exLQfull_ok exGfull_ok _).1
+/-- the real quantised standard Gaussian on `-5..=5` (`GOk` by `decide` from the recorded CDF) -/
+example : (leakyModel gaussLQ gaussG (fun _ => 1000000)).WellFormed 24 :=
+  (C03_leaky_wellFormed gaussLQ_ok gauss_gok _).1
 
-/-- **C03, `…_perfect` constructors** (output contract only): weights that satisfy the
-    contract are non-zero, below the total, and sum to `2^P` — what `cat`'s validator accepts -/
+/-! ### the four glue constructors over `fast_quantized_cdf` -/
+
+/-- **C03, `NonContiguousCategoricalDecoderModel::…_fast`**: with as many (pairwise distinct)
+    symbols as weights the constructor succeeds and the decoder is the labelled specification
+    model of the shared table, which is `WellFormed` -/
+theorem C03_ncdec_fast {Sym : Type} [DecidableEq Sym] [Inhabited Sym] {B P n : Nat} {h : Nat → Nat}
+    (hP1 : 1 ≤ P) (hPB : P ≤ B) (hB : B ≤ 64) (hlen : lenOk P n = true) (tb : TBF1Fast h n)
+    {syms : List Sym} (hs : syms.length = n) (hnd : syms.Nodup) :
+    ∃ m, Cat.NcDec.fromSymbolsAndCdf B P syms (innerList P n (freeWeight B P n) h) = .ok (some m) ∧
+      (∀ q, q < 2 ^ P → m.dec B q
+        = .ok ((Cat.labelledModel syms (extList P n (freeWeight B P n) h)).dec q)) ∧
+      (Cat.labelledModel syms (extList P n (freeWeight B P n) h)).WellFormed P := by
+  have ok := FastOk.of_lenOk hP1 hPB hB hlen
+  have hf := freeWeight_eq ok
+  have hv := extList_valid (h := h) ok hf tb
+  have hl : syms.length + 1 = (extList P n (freeWeight B P n) h).length := by
+    rw [extList_length]; omega
+  obtain ⟨last, hm⟩ := ncdec_fast (free := freeWeight B P n) (h := h) ok hs
+  exact ⟨_, hm, fun q hq => Cat.NcDec.dec_canon hv hl hPB hq, Cat.labelledModel_wellFormed hv hl hnd⟩
+
+/-- **C03, `NonContiguousCategoricalEncoderModel::…_fast`** -/
+theorem C03_ncenc_fast {Sym : Type} [DecidableEq Sym] [Inhabited Sym] {B P n : Nat} {h : Nat → Nat}
+    (hP1 : 1 ≤ P) (hPB : P ≤ B) (hB : B ≤ 64) (hlen : lenOk P n = true) (tb : TBF1Fast h n)
+    {syms : List Sym} (hs : syms.length = n) (hnd : syms.Nodup) :
+    ∃ m, Cat.NcEnc.fromSymbolsAndCdf B P syms (innerList P n (freeWeight B P n) h) = .ok (some m) ∧
+      ∀ s, m.enc s = (Cat.labelledModel syms (extList P n (freeWeight B P n) h)).enc s := by
+  have ok := FastOk.of_lenOk hP1 hPB hB hlen
+  obtain ⟨m, h1, _, h3⟩ := ncenc_fast ok (freeWeight_eq ok) tb hs hnd
+  exact ⟨m, h1, h3⟩
+
+/-- **C03, `ContiguousLookupDecoderModel::…_fast`**: the lookup table is correct — the decoder
+    returns the bin of the specification for every quantile -/
+theorem C03_lookup_fast {B P n : Nat} {h : Nat → Nat} (hP1 : 1 ≤ P) (hPB : P ≤ B) (hB : B ≤ 64)
+    (hlen : lenOk P n = true) (tb : TBF1Fast h n) :
+    ∃ lk, Cat.Lookup.fromContiguous B P ⟨cdfList B P n (freeWeight B P n) h⟩ = .ok lk ∧
+      ∀ q, q < 2 ^ P → lk.dec B P q = .ok (Cat.specDec (extList P n (freeWeight B P n) h) q) := by
+  have ok := FastOk.of_lenOk hP1 hPB hB hlen
+  have hf := freeWeight_eq ok
+  obtain ⟨tbl, h1, h2⟩ := lookup_fast (h := h) ok hf tb
+  refine ⟨_, h1, fun q hq => ?_⟩
+  have hv := cdfList_valid (h := h) ok hf tb
+  have := Cat.Lookup.dec_eq (m := { tbl := tbl, cdf := cdfList B P n (freeWeight B P n) h }) hv hPB
+    (by rw [unwrap_cdfList]; exact h2) hq
+  rw [unwrap_cdfList] at this; exact this
+
+/-- **C03, `NonContiguousLookupDecoderModel::…_fast`** -/
+theorem C03_nclookup_fast {Sym : Type} [DecidableEq Sym] [Inhabited Sym] {B P n : Nat}
+    {h : Nat → Nat} (hP1 : 1 ≤ P) (hPB : P ≤ B) (hB : B ≤ 64) (hlen : lenOk P n = true)
+    (tb : TBF1Fast h n) {syms : List Sym} (hs : syms.length = n) :
+    ∃ m, Cat.NcLookup.fromSymbolsAndCdf B P syms (innerList P n (freeWeight B P n) h) = .ok (some m) ∧
+      ∀ q, q < 2 ^ P → m.dec B P q
+        = .ok ((Cat.labelledModel syms (extList P n (freeWeight B P n) h)).dec q) := by
+  have ok := FastOk.of_lenOk hP1 hPB hB hlen
+  have hf := freeWeight_eq ok
+  have hv := extList_valid (h := h) ok hf tb
+  have hl : syms.length + 1 = (extList P n (freeWeight B P n) h).length := by
+    rw [extList_length]; omega
+  obtain ⟨tbl, last, hm, hok⟩ := nclookup_fast (h := h) ok hf tb hs
+  exact ⟨_, hm, fun q hq => Cat.NcLookup.dec_canon hv hl hPB hok hq⟩
+
+example := C03_ncdec_fast (B := 32) (P := 24) (n := 5) (h := d4.hE f32Ops 32)
+  (syms := [10, 20, 30, 40, 50]) (by decide) (by decide) (by decide) (by decide)
+  (d4_n ▸ d4_tbf1) rfl (by decide)
+
+/-- **C03, `…_perfect` constructors** (output contract only — see the file header: validity of
+    `…_perfect` results is `cat`'s `C19_validator_accepts_only_valid`): weights that satisfy the
+    contract are non-zero and sum to `2^P` -/
 theorem C03_perfect_contract {P n : Nat} {w : List Nat} (h : perfectContract P n w = true) :
     w.length = n ∧ (∀ x ∈ w, 0 < x) ∧ w.foldl (· + ·) 0 = 2 ^ P := by
   unfold perfectContract at h
@@ -150,6 +239,10 @@ end CV.Quant
 #print axioms CV.Quant.C03_leaky_tiling
 #print axioms CV.Quant.C03_leaky_search_every_hint
 #print axioms CV.Quant.C03_leaky_wellFormed
+#print axioms CV.Quant.C03_ncdec_fast
+#print axioms CV.Quant.C03_ncenc_fast
+#print axioms CV.Quant.C03_lookup_fast
+#print axioms CV.Quant.C03_nclookup_fast
 #print axioms CV.Quant.C03_perfect_contract
 #print axioms CV.Quant.C03_D4_counterexample
 #print axioms CV.Quant.C03_D16_counterexample
